@@ -136,7 +136,11 @@ public:
 
   linear_expression(Number n, variable_t x)
       : _map(std::make_shared<map_t>()), _cst(0) {
-    this->_map->insert(pair_t(x, n));
+    // Terms with a zero coefficient are never stored (see add):
+    // 0*x is the constant 0.
+    if (n != 0) {
+      this->_map->insert(pair_t(x, n));
+    }
   }
 
   linear_expression(const linear_expression_t &e) = default;
